@@ -191,7 +191,7 @@ def collect(hs, script, impl, model, judge, hangs, merr):
         rj = gj[k] if k < len(gj) else []
         ops = [l for l in h["lines"] if l and not l.startswith("#")]
         rec = {"h": h, "disagree": None, "judge_fail": None, "panic_hang": [], "undet": False, "nops": len(ops),
-               "judged": sum(1 for l in rj if l.endswith(" ok")), "classes": {}, "model_error": merr if (merr and k >= len(gm) - 1) else ""}
+               "judged": sum(1 for l in rj if l.endswith(" ok")), "classes": {}, "judge_fails": [], "model_error": merr if (merr and k >= len(gm) - 1) else ""}
         stop = False
         for j, op in enumerate(ops):
             a = ri[j] if j < len(ri) else None
@@ -210,10 +210,13 @@ def collect(hs, script, impl, model, judge, hangs, merr):
             m = re.match(r"J (\d+) class (\d+)", l)
             if m:
                 rec["classes"][int(m.group(1)) - 1] = int(m.group(2))
-            if " FAIL " in l and rec["judge_fail"] is None:
+            if " FAIL " in l:
                 m = re.match(r"J (\d+) FAIL (.*)", l)
                 j = int(m.group(1)) - 1
-                rec["judge_fail"] = {"op_index": j, "op": ops[j] if j < len(ops) else "?", "what": m.group(2)[:700]}
+                jf = {"op_index": j, "op": ops[j] if j < len(ops) else "?", "what": m.group(2)[:700]}
+                rec["judge_fails"].append(jf)
+                if rec["judge_fail"] is None:
+                    rec["judge_fail"] = jf
             if l.endswith(" undet"):
                 rec["undet"] = True
         recs.append(rec)
@@ -295,9 +298,7 @@ def check(pid, tier, seed):
     known = load_known()
     violations, known_hits, disagreements = [], {}, []
     for r in recs:
-        fails = []
-        if r["judge_fail"] and plans.relevant(pid, r, r["judge_fail"]):
-            fails.append(r["judge_fail"])
+        fails = [jf for jf in r["judge_fails"] if plans.relevant(pid, r, jf)]
         if plan.get("totality"):
             for (j, op, res) in r["panic_hang"]:
                 if not r["judge_fail"] or r["judge_fail"]["op_index"] != j:
@@ -326,8 +327,9 @@ def check(pid, tier, seed):
             extra = gen.generate([(f, 40) for f in fams], tier, seed * 1000 + rnd)
             searched += len(extra)
             for r in run_histories(extra, pid + "-search", timeout_ms=plan.get("op_timeout_ms", 10000)):
-                if r["judge_fail"] and plans.relevant(pid, r, r["judge_fail"]) and not classify(pid, r, known):
-                    violations.append(r); break
+                rel = [jf for jf in r["judge_fails"] if plans.relevant(pid, r, jf)]
+                if rel and not classify(pid, dict(r, judge_fail=rel[0]), known):
+                    violations.append(dict(r, judge_fail=rel[0])); break
 
     # verdict
     exit_code = 0
